@@ -42,7 +42,10 @@ def _case(draw, tier):
     mutate = draw(st.sampled_from(['deg', 'rep', 'excl', 'par', 'pattern']))
     return {'ms': ms, 'timeout': draw(st.sampled_from([10, 10, 0.25, 0.05])),
             'history': draw(st.sampled_from(['cold_warm', 'cold_warm', 'child', 'partial_first'])),
-            'mutate': [mutate, draw(st.integers(0, 50)), draw(st.integers(0, 50))], 'vseed': draw(st.integers(0, 9999))}
+            'mutate': [mutate, draw(st.integers(0, 50)), draw(st.integers(0, 50))], 'vseed': draw(st.integers(0, 9999)),
+            # 'lazy_first': the documented class knob n_mat_max_eager lowered to 1, which sends settings of brute-forceable
+            # size down the branch that real use only takes above 1000 matrices (lazy encoders first, eager ones later)
+            'variant': draw(st.sampled_from(['default', 'default', 'lazy_first']))}
 
 
 def strategy(tier):
@@ -117,6 +120,8 @@ def child_select(path_in):
     build.ensure_path()
     from adsg_core.optimization.assign_enc.selector import EncoderSelector
     EncoderSelector.encoding_timeout = job['timeout']
+    if job.get('variant') == 'lazy_first':
+        EncoderSelector.n_mat_max_eager = 1
     settings, exist_objs, _ = matspec.to_settings(job['ms'])
     mgr = EncoderSelector(settings).get_best_assignment_manager()
     print(json.dumps({'encoder': str(mgr.encoder), 'table': table_of(mgr, exist_objs, job['vseed'])}))
@@ -129,6 +134,7 @@ def check_case(case):
     ms = case['ms']
     build.ensure_path()
     build.reset_globals()
+    EncoderSelector.n_mat_max_eager = 1e3   # class default (a previous case may have returned early)
     timeout = case['timeout']
     res.classes = [f'timeout_{timeout}', 'history_'+case['history'], 'family_'+ms.get('family', 'random')]
     try:
@@ -140,7 +146,7 @@ def check_case(case):
     n_total = sum(len(r) for r in refs)
     res.classes.append('no_matrix' if n_total == 0 else 'one_matrix' if n_total == 1 else 'many_matrices')
     rs = matspec.ref_settings(ms)
-    d0 = {'timeout': timeout, 'history': case['history'], 'n_total': n_total}
+    d0 = {'timeout': timeout, 'history': case['history'], 'n_total': n_total, 'variant': case.get('variant', 'default')}
 
     # --- cache keys of different settings ---
     how, a, b_ = case['mutate']
@@ -180,6 +186,10 @@ def check_case(case):
 
     # --- selection ---
     EncoderSelector.encoding_timeout = timeout
+    n_mme_default = EncoderSelector.n_mat_max_eager
+    if case.get('variant') == 'lazy_first':
+        EncoderSelector.n_mat_max_eager = 1
+    res.classes.append('variant_'+str(case.get('variant', 'default')))
     settings, exist_objs, _ = matspec.to_settings(ms)
     sel = EncoderSelector(settings)
     sel.reset_cache()
@@ -199,7 +209,7 @@ def check_case(case):
             with tempfile.TemporaryDirectory() as tmp:
                 pin = os.path.join(tmp, 'in.json')
                 with open(pin, 'w') as fp:
-                    json.dump({'ms': ms, 'timeout': timeout, 'vseed': case['vseed']}, fp)
+                    json.dump({'ms': ms, 'timeout': timeout, 'vseed': case['vseed'], 'variant': case.get('variant')}, fp)
                 out = subprocess.run([sys.executable, '-c', f'from vf.checks import c12; c12.child_select({pin!r})'],
                                      env=env, cwd=VERIF, capture_output=True, text=True, timeout=900)
             if out.returncode != 0:
@@ -217,6 +227,7 @@ def check_case(case):
         if exc_sig(e).endswith('@harness'):
             raise
         EncoderSelector.encoding_timeout = 10
+        EncoderSelector.n_mat_max_eager = n_mme_default
         res.add(viol('selection_failed', f'timeout={timeout} {type(e).__name__}: {e} ({n_total} matrices)',
                      sig=f'selection_failed:{exc_sig(e)}', data=dict(d0, msg=str(e)[:300])))
         res.sample = {'settings': ms, 'outcome': 'selection failed'}
@@ -225,6 +236,7 @@ def check_case(case):
         EncoderSelector.encoding_timeout = 10
     name = str(mgr_cold.encoder)
     res.classes.append('selected_'+type(mgr_cold.encoder).__name__)
+    res.classes.append('stage_'+str(getattr(sel, '_last_selection_stage', None)))
     if n_total <= 1 and len(mgr_cold.design_vars) != 0:
         res.add(viol('variables_for_single_matrix', f'{n_total} matrices but {len(mgr_cold.design_vars)} variables '
                                                     f'({name})', data=d0))
@@ -263,6 +275,7 @@ def check_case(case):
                              sig=f'selection_failed:{exc_sig(e)}', data=dict(d0, msg=str(e)[:300])))
             finally:
                 EncoderSelector.encoding_timeout = 10
+    EncoderSelector.n_mat_max_eager = n_mme_default
     res.evaluations = max(1, n_eval)
     res.nontrivial = max([len(r) for r in refs]+[0]) >= 2
     res.sample = {'settings': ms, 'timeout': timeout, 'history': case['history'], 'selected': name,
